@@ -1,7 +1,7 @@
 //! This module contains an abstraction for handling the parameters of 2d alignments re-expressed
 //! as a transformation around a rotation center point.
 
-use crate::geom2::align2::{iso2_from_param, param_from_iso2, T2Storage};
+use crate::geom2::align2::{iso2_from_param, T2Storage};
 use crate::geom2::{Iso2, Point2};
 
 /// Manages the parameters for a 2D alignment problem with a rotation center point.
@@ -18,6 +18,9 @@ use crate::geom2::{Iso2, Point2};
 pub struct RcParams2 {
     /// The rotation center point in the same coordinate system as the test entity
     rc: Point2,
+
+    /// The initial transformation, on top of which the parameters act
+    initial: Iso2,
 
     /// The current parameters
     x: T2Storage,
@@ -52,13 +55,18 @@ impl RcParams2 {
     ///
     /// ```
     pub fn from_initial(initial: &Iso2, rc: &Point2) -> Self {
-        // Get the initial transformation as a transformation about the rotation center point
-        let about_rc = as_iso_about_center(rc, initial);
-        let x = param_from_iso2(&about_rc);
+        // The parameters describe the motion applied on top of the initial transformation (a
+        // rotation about the moved rotation center followed by a translation), so they start at
+        // exactly zero. When they started at the parameters of the initial transformation, a
+        // nearly-identity initial transformation gave a parameter vector that was tiny but not
+        // zero; the Levenberg-Marquardt solver sizes its first trust region from the norm of the
+        // starting parameters, took a minute first step, and reported convergence without moving.
+        let x = T2Storage::zeros();
         let current_rc = initial * rc;
 
         let mut item = Self {
             rc: *rc,
+            initial: *initial,
             x,
             transform: Iso2::identity(),
             inverse: Iso2::identity(),
@@ -117,8 +125,9 @@ impl RcParams2 {
 
     fn compute(&mut self) {
         let t = iso2_from_param(&self.x);
-        self.rotation = Iso2::rotation(t.rotation.angle());
-        self.transform = as_iso_about_origin(&self.rc, &t);
+        let moved_rc = self.initial * self.rc;
+        self.transform = as_iso_about_origin(&moved_rc, &t) * self.initial;
+        self.rotation = Iso2::rotation(self.transform.rotation.angle());
         self.inverse = self.transform.inverse();
         self.current_rc = self.transform * self.rc;
     }
